@@ -38,6 +38,8 @@ fn main() {
     let seed = args.u64("--seed", 1);
     let out = args.str("--out", "");
     vkit::util::install_panic_hook();
+    // every log level is taken (and discarded), so that the arguments of the library's log macros are evaluated
+    vkit::util::install_logger();
     if let Err(e) = ippref::self_check() {
         eprintln!("reference codec self-check failed: {e}");
         std::process::exit(3);
